@@ -212,6 +212,8 @@ class MethodEval:
             return ('sym', 'EPS')
         if d and d.startswith("self.") and d.count(".") == 1:
             a = d.split(".")[1]
+            if a in self.tc.inner and self.tc.inner[a] in self.classes:
+                return ('inner', a)
             if a in self.tc.params.names or a in self.tc.constants.names:
                 return ('sym', a)
             if a in self.tc.attrs:
@@ -230,9 +232,16 @@ class MethodEval:
                         sub_env[st.targets[0].id] = builder.build(st.value, sub_env)
                     if isinstance(st, ast.Return) and st.value is not None:
                         return builder.build(st.value, sub_env)
-        if d and d.count(".") == 2 and d.startswith("self.") and d.split(".")[2] in ("forward", "backward", "jacobian",
-                                                                                  "_forward", "_backward", "_jacobian"):
-            attr, meth = d.split(".")[1], d.split(".")[2]
+        recv = None
+        if isinstance(e.func, ast.Attribute) and e.func.attr in ("forward", "backward", "jacobian", "_forward", "_backward",
+                                                                  "_jacobian") and len(e.args) == 1:
+            # the receiver may be self.BC, a local alias of it, or a helper call returning it
+            try:
+                recv = builder.build(e.func.value, env)
+            except Undecided:
+                recv = None
+        if recv is not None and isinstance(recv, tuple) and recv[0] == 'inner':
+            attr, meth = recv[1], e.func.attr
             inner = self.tc.inner.get(attr)
             if inner in self.classes and len(e.args) == 1:
                 if env.get("@bc:" + attr) is None:
@@ -250,7 +259,58 @@ class MethodEval:
                 return ('case', tuple((c.conds, c.expr, c.domains) for c in cases))
         if d == "dutils.cast" and len(e.args) == 2:
             return builder.build(e.args[1], env)
+        # helper methods of the same class and module-level helpers: inlined
+        fdef, is_method = None, False
+        if d and d.startswith("self.") and d.count(".") == 1 and d.split(".")[1] in self.tc.methods:
+            fdef, is_method = self.tc.methods[d.split(".")[1]], True
+        elif d and d.count(".") == 1 and d.split(".")[0] == self.tc.name and d.split(".")[1] in self.tc.methods:
+            fdef = self.tc.methods[d.split(".")[1]]          # static helper called through the class
+            is_method = not any(ast.unparse(x) == "staticmethod" for x in fdef.decorator_list)
+        elif d and "." not in d and d in getattr(self.tc.mod, "funcs", {}):
+            fdef = self.tc.mod.funcs[d]
+        if fdef is not None:
+            return self._inline(fdef, is_method, e, env, builder)
         return None
+
+    def _inline(self, fdef, is_method, call, env, builder):
+        if self.depth > 6:
+            raise Undecided("helper nesting too deep")
+        if any(ast.unparse(x) == "staticmethod" for x in fdef.decorator_list):
+            is_method = False
+        names = [a.arg for a in fdef.args.args]
+        if is_method:
+            names = names[1:]
+        defaults = fdef.args.defaults
+        sub = {k: v for k, v in env.items() if k.startswith("@")}
+        vals = [builder.build(a, env) for a in call.args]
+        kw = {k.arg: builder.build(k.value, env) for k in call.keywords if k.arg}
+        for i, n in enumerate(names):
+            if i < len(vals):
+                sub[n] = vals[i]
+            elif n in kw:
+                sub[n] = kw[n]
+            else:
+                j = i - (len(names) - len(defaults))
+                if j < 0:
+                    raise Undecided(f"helper {fdef.name}: missing argument {n}")
+                sub[n] = builder.build(defaults[j], {})
+        saved, self.out = getattr(self, "out", []), []
+        self.depth += 1
+        try:
+            self.walk(fdef.body, sub, [], {})
+            got = self.out
+        finally:
+            self.out = saved
+            self.depth -= 1
+        if not got:
+            raise Undecided(f"helper {fdef.name} returns nothing")
+        changed = {k: v for k, v in sub.items() if k.startswith("@") and env.get(k) != v}
+        if len(got) == 1 and not got[0].conds and not got[0].masks and not got[0].domains:
+            env.update(changed)
+            return got[0].expr
+        if changed or any(c.masks for c in got):
+            raise Undecided(f"helper {fdef.name}: branches with side effects")
+        return ('case', tuple((c.conds, c.expr, c.domains) for c in got))
 
     # cases ------------------------------------------------------------------
     def cases(self, mname, xexpr=X, params_override=None):
@@ -310,7 +370,7 @@ class MethodEval:
                                                  f"{len(t.elts)} names for {len(v[1])} declared values", s.lineno))
                     raise Undecided(f"unpacking {ast.unparse(s)}")
                 if isinstance(t, ast.Attribute):
-                    d = dotted(t)
+                    d = self._canon_dotted(dotted(t), env)
                     if d and d.startswith("self.") and d.endswith(".params.values"):
                         attr = d.split(".")[1]
                         v = self.b(s.value, env)
@@ -328,7 +388,7 @@ class MethodEval:
                             continue
                     raise Undecided(f"attribute store {ast.unparse(t)}")
                 if isinstance(t, ast.Subscript):
-                    d = dotted(t.value)
+                    d = self._canon_dotted(dotted(t.value), env)
                     key = const_value(t.slice)
                     if d and d.startswith("self.") and isinstance(key, str):
                         parts = d.split(".")
@@ -371,6 +431,15 @@ class MethodEval:
                 return
             raise Undecided(f"statement {type(s).__name__}")
 
+    def _canon_dotted(self, d, env):
+        """`bc.params.values` with bc a local alias of self.BC -> `self.BC.params.values`"""
+        if d and "." in d:
+            root, rest = d.split(".", 1)
+            v = env.get(root)
+            if isinstance(v, tuple) and v and v[0] == 'inner':
+                return f"self.{v[1]}.{rest}"
+        return d
+
     def _partial_sync(self, attr, inner, pname, val, env, line):
         names = self.classes[inner].params.names
         cur = env.get("@bc:" + attr)
@@ -390,11 +459,7 @@ class MethodEval:
         return v[0] == 'mul' and (v[1] == ('nan',) or v[2] == ('nan',))
 
     def _mask(self, sl, env):
-        if isinstance(sl, ast.UnaryOp) and isinstance(sl.op, ast.Invert) and isinstance(sl.operand, ast.Name):
-            return False, env.get(sl.operand.id)
-        if isinstance(sl, ast.Name):
-            return True, env.get(sl.id)
-        raise Undecided("mask form")
+        return mask_norm(self.b(sl, env))
 
     def emit(self, v, conds, masked):
         # expand masked arrays and inner-transform cases
@@ -403,6 +468,41 @@ class MethodEval:
             if not consistent(allc):
                 continue
             self.out.append(Case(allc, e, masks2, doms2))
+
+
+def mask_norm(e):
+    """boolean data mask -> (polarity, canonical Expr): negations peeled, `a < b` read as not `a >= b`, `b > a` as `a < b`"""
+    pol = True
+    while isinstance(e, tuple) and e and e[0] == 'not':
+        e, pol = e[1], not pol
+    if isinstance(e, tuple) and e and e[0] == 'cmp':
+        op, a, b = e[1], e[2], e[3]
+        # data on the left
+        if not contains_x(a) and contains_x(b):
+            a, b = b, a
+            op = {'<': '>', '<=': '>=', '>': '<', '>=': '<=', '==': '==', '!=': '!='}[op]
+        if op == '<':
+            op, pol = '>=', not pol
+        elif op == '<=':
+            op, pol = '>', not pol
+        elif op == '!=':
+            op, pol = '==', not pol
+        e = ('cmp', op, a, b)
+    return pol, e
+
+
+def mask_equal(a, b):
+    """two normalised data masks denote the same set (comparison of the same canonical difference)"""
+    if a == b:
+        return True
+    if not (isinstance(a, tuple) and isinstance(b, tuple) and a and b and a[0] == b[0] == 'cmp' and a[1] == b[1]):
+        return False
+    from .formula import Canon
+    try:
+        c = Canon()
+        return c.ratio(('sub', a[2], a[3])) == c.ratio(('sub', b[2], b[3]))
+    except Exception:
+        return False
 
 
 def expand(v, masked):
